@@ -55,7 +55,7 @@ structure Hyg (d : Decorated) : Prop where
   ok : ∀ c ∈ codeLines d, OkCode c
   whole : ∀ L ∈ wholeLabels d, Clean L
   ne : codeLines d ≠ []
-  first : ∀ c, (codeLines d).head? = some c → ∃ x t, c.code = x :: t ∧ isSpacePy x = false
+  first : ∀ c, (codeLines d).head? = some c → c.code ≠ []
   last : ∀ c, (codeLines d).getLast? = some c → c.code ≠ []
 
 theorem hyg_of (d : Decorated) (h : hygienic d = true) : Hyg d := by
@@ -68,11 +68,7 @@ theorem hyg_of (d : Decorated) (h : hygienic d = true) : Hyg d := by
     refine ⟨fun x hx => okCode_of x (h1 x hx), fun L hL => clean_of L (h2 L hL), by simp [hcs], ?_, ?_⟩
     · intro c' hc'
       rw [hcs] at hc'; simp at hc'; subst hc'
-      have := h3.1
-      unfold firstOk at this
-      split at this
-      · simp at this
-      · rename_i x t hxt; exact ⟨x, t, hxt, by simpa using this⟩
+      simpa [firstOk] using h3.1
     · intro c' hc'
       rw [hcs, List.getLast?_eq_some_getLast (by simp)] at hc'
       simp only [Option.some.injEq] at hc'
@@ -302,6 +298,54 @@ theorem centrifuged_plain (ws : List Str) (cs : List CodeLine) :
       rw [hml, centrifuged_snoc]
       simp [plainLines, CodeLine.addHints]
 
+theorem trimBlank_id (ls : List Str) (hf : ∀ l, ls.head? = some l → blankPy l = false)
+    (hl : ∀ l, ls.getLast? = some l → blankPy l = false) : trimBlank ls = ls := by
+  have e1 : ls.dropWhile blankPy = ls := by
+    cases ls with
+    | nil => rfl
+    | cons a t => simp [List.dropWhile_cons, hf a rfl]
+  have e2 : ls.reverse.dropWhile blankPy = ls.reverse := by
+    cases hr : ls.reverse with
+    | nil => rfl
+    | cons a t =>
+      have : ls.getLast? = some a := by rw [← List.head?_reverse, hr]; rfl
+      simp [List.dropWhile_cons, hl a this]
+  simp [trimBlank, e1, e2]
+
+theorem blankPy_false_of_mem {l : Str} {x : Char} (hx : x ∈ l) (hs : isSpacePy x = false) : blankPy l = false := by
+  simp only [blankPy, List.all_eq_false]
+  exact ⟨x, hx, by simp [hs]⟩
+
+theorem renderCode_code_sub (c : CodeLine) : ∀ x ∈ c.code, x ∈ renderCode c := by
+  intro x hx
+  by_cases h : c.hints = []
+  · rw [renderCode_plain c h]; exact hx
+  · rw [renderCode_hinted c h]; simp [hx]
+
+theorem trimBlank_render (d : Decorated) (hy : Hyg d) :
+    trimBlank ((codeLines d).map renderCode) = (codeLines d).map renderCode := by
+  apply trimBlank_id
+  · intro l hl
+    simp only [List.head?_map, Option.map_eq_some_iff] at hl
+    obtain ⟨c, hc, rfl⟩ := hl
+    have hne := hy.first c hc
+    obtain ⟨x, hx⟩ : ∃ x, c.code.getLast? = some x := by
+      cases h : c.code.getLast? with
+      | none => simp at h; exact absurd h hne
+      | some x => exact ⟨x, rfl⟩
+    exact blankPy_false_of_mem (renderCode_code_sub c x (List.mem_of_getLast? hx))
+      ((hy.ok c (List.mem_of_head? hc)).notrail x hx)
+  · intro l hl
+    simp only [List.getLast?_map, Option.map_eq_some_iff] at hl
+    obtain ⟨c, hc, rfl⟩ := hl
+    have hne := hy.last c hc
+    obtain ⟨x, hx⟩ : ∃ x, c.code.getLast? = some x := by
+      cases h : c.code.getLast? with
+      | none => simp at h; exact absurd h hne
+      | some x => exact ⟨x, rfl⟩
+    exact blankPy_false_of_mem (renderCode_code_sub c x (List.mem_of_getLast? hx))
+      ((hy.ok c (List.mem_of_getLast? hc)).notrail x hx)
+
 /-- **`centrifugate_hints` on a decorated program**: the isolated hints disappear, their labels
 (sorted, without repetition) are opened at the end of the first code line and closed at the end of
 the last one. -/
@@ -314,7 +358,7 @@ theorem centrifugate_decorate (d : Decorated) (hy : Hyg d) :
     splitNL_joinNL _ (by simpa using hdne) (renderLine_noNL d hy.ok hy.whole)
   have hscan := scanIsolated_decorated d hy.ok hy.whole
   unfold centrifugate
-  simp only [hsplit, hscan]
+  simp only [hsplit, hscan, trimBlank_render d hy]
   by_cases hw : wholeLabels d = []
   · simp only [hw, if_true, sortDedup_nil, centrifuged_nil_render]
   · simp only [hw, if_false]
@@ -706,15 +750,13 @@ theorem events_eq (d : Decorated) (L : Str) :
 /-- **`get_program` on a decorated program.** -/
 theorem getProgram_decorate (d : Decorated) (r : Str → List SSpan) (hy : Hyg d)
     (hbal : ∀ L, Bal (events d L) (r L)) (hnt : ∀ L, NoTie (events d L)) :
-    ∃ p, getProgramFrom (decorate d) = .ok p ∧ p.source = joinNL (base d) ∧
+    ∃ p, getProgramFrom (decorate d) = .ok p ∧ p.source = stripPy (joinNL (base d)) ∧
       (∀ L sp, p.addition.count L sp = (r L).count (false, sp)) ∧
       (∀ L sp, p.deletion.count L sp = (r L).count (true, sp)) := by
   let ws := sortDedup (wholeLabels d)
   let cs' := centrifuged ws (codeLines d)
   have hws : ∀ L ∈ ws, Clean L := fun L hL => hy.whole L ((mem_sortDedup L _).mp hL)
-  have hfirst : ∀ c, (codeLines d).head? = some c → c.code ≠ [] := by
-    intro c hc; obtain ⟨x, t, hxt, _⟩ := hy.first c hc; simp [hxt]
-  have ok' : ∀ c ∈ cs', OkCode c := okCode_centrifuged ws hws _ hy.ok hfirst hy.last
+  have ok' : ∀ c ∈ cs', OkCode c := okCode_centrifuged ws hws _ hy.ok hy.first hy.last
   have hcent := centrifugate_decorate d hy
   -- the tokens
   have hne' : cs'.map renderCode ≠ [] := by
@@ -754,11 +796,9 @@ theorem getProgram_decorate (d : Decorated) (r : Str → List SSpan) (hy : Hyg d
       .ok (getResult st'.add.result, getResult st'.del.result) := by
     simp [collectHints, collectToks, hrun, hst', finish, hsa, hsd]
   -- the stored source
-  have hsrc : removeHints (joinNL (cs'.map renderCode)) = joinNL (base d) := by
-    rw [removeHints, subHints_lines cs' ok', centrifuged_plain]
-    exact stripPy_plain (codeLines d) hy.ne hy.first
-      (fun c hc => ⟨hy.last c hc, (hy.ok c (List.mem_of_getLast? hc)).notrail⟩)
-  refine ⟨⟨joinNL (base d), getResult st'.add.result, getResult st'.del.result⟩, ?_, rfl, ?_, ?_⟩
+  have hsrc : removeHints (joinNL (cs'.map renderCode)) = stripPy (joinNL (base d)) := by
+    rw [removeHints, subHints_lines cs' ok', centrifuged_plain]; rfl
+  refine ⟨⟨stripPy (joinNL (base d)), getResult st'.add.result, getResult st'.del.result⟩, ?_, rfl, ?_, ?_⟩
   · have hc2 := hcollect
     have hs2 := hsrc
     simp only [cs', ws] at hc2 hs2
